@@ -15,6 +15,9 @@ The delayed queue itself is a timed labelled transition system:
                                                   pq.Pop(); task.Do(nil) }      -- Do = task.queue.SendCallback(handler)
              case task := <-my.tasks:  pq.Push(task) } }
   SendDelayed(d, h): task := {queue, h, triggerTime: now + d} ; my.tasks <- task        (chan cap 128)
+  task.Do = task.queue.SendCallback(handler) = select { case <-closeChan: ; case C <- task: }: on a closed target queue
+  the closeChan branch may be taken (it must be when C is full): the delayed task is consumed, nothing is delivered,
+  and the loop goes on with the next entry of the same tick.
 
 Time: `now` (ns).  The ticker fires at `nextTick` (a multiple of the period), the tick is kept in
 ticker.C (capacity 1) or dropped when one is already pending.  `delay` is enabled only when no
@@ -112,14 +115,17 @@ structure State where
   lpc : LPc
   q : Nat → List Req            -- target queues' channels
   qcap : Nat → Nat
+  qclosed : Nat → Bool          -- the target queue's closeChan is closed
   -- ghost
   nextId : Nat
   forwarded : List (Req × Nat)  -- (request, instant at which it was placed on its queue), in order
   blockedEver : Bool            -- time has passed while the loop was blocked on a full target queue
+  dropped : List Req            -- requests consumed through the `<-closeChan` branch of a closed target queue
 
 def init (qcap : Nat → Nat) : State :=
   { now := 0, nextTick := tickNs, tickPending := false, senders := [], reqChan := [], heap := #[], lpc := .select,
-    q := fun _ => [], qcap := qcap, nextId := 0, forwarded := [], blockedEver := false }
+    q := fun _ => [], qcap := qcap, qclosed := fun _ => false, nextId := 0, forwarded := [], blockedEver := false,
+    dropped := [] }
 
 inductive Act where
   | sendDelayed (q : Nat) (d : Int)   -- a goroutine calls Queue(q).SendDelayed(d, handler≠nil)
@@ -128,6 +134,8 @@ inductive Act where
   | tickRecv                          -- loop: case <-ticker.C: timestamp := now
   | tickTest                          -- loop: one evaluation of the `for` condition / trigger test (+ Pop)
   | forward                           -- loop: SendCallback's `C <- task` on the target queue
+  | forwardDrop                       -- loop: SendCallback's `<-closeChan` branch (target queue closed): task consumed
+  | closeQ (q : Nat)                  -- the owner of queue q closes its close channel
   | qRecv (q : Nat)                   -- the consumer of queue q receives
   | tickFire                          -- the ticker's timer fires
   | delay (d : Nat)                   -- time passes
@@ -139,7 +147,7 @@ def loopEnabled (s : State) : Bool :=
   match s.lpc with
   | .select => s.tickPending || !s.reqChan.isEmpty
   | .tickLoop _ => true
-  | .forwarding _ r => decide ((s.q r.queue).length < s.qcap r.queue)
+  | .forwarding _ r => decide ((s.q r.queue).length < s.qcap r.queue) || s.qclosed r.queue
 
 def enqEnabled (s : State) : Bool := !s.senders.isEmpty && decide (s.reqChan.length < reqCap)
 
@@ -181,6 +189,12 @@ def step (s : State) : Act → Option State
         some { s with q := updQ s.q r.queue (s.q r.queue ++ [r]), forwarded := s.forwarded ++ [(r, s.now)], lpc := .tickLoop ts }
       else none
     | _ => none
+  | .forwardDrop =>
+    match s.lpc with
+    | .forwarding ts r =>
+      if s.qclosed r.queue then some { s with dropped := s.dropped ++ [r], lpc := .tickLoop ts } else none
+    | _ => none
+  | .closeQ q => some { s with qclosed := fun x => if x = q then true else s.qclosed x }
   | .qRecv q =>
     match s.q q with
     | _ :: rest => some { s with q := updQ s.q q rest }
